@@ -234,7 +234,7 @@ def steel_build(d):
         return "(immutable-vector %s)" % " ".join(steel_build(x) for x in d[1]) if d[1] else "(immutable-vector)"
     if t == "bytes":
         return "(bytes %s)" % " ".join(str(b) for b in d[1]) if d[1] else "(bytes)"
-    if t == "flo":
+    if t in ("flo", "num"):
         return d[1]
     raise ValueError(t)
 
@@ -373,6 +373,137 @@ def ast_printer_raw_unquote(case, params):
     return "," in t or "unquote" in t
 
 
+NEGZERO = re.compile(r"-0\.0(?![0-9eE])")
+
+
+def negative_zero_sign_lost(case, params):
+    """the text -0.0 (alone or as a part of a complex number) reads back as 0.0: the datum read is equal? to the one written,
+    only the sign of zero is lost (same root as C10-F34)"""
+    if case.get("kind") != "number-roundtrip" or case.get("mode") != "rewrite":
+        return False
+    w, r = case.get("written", ""), case.get("rewritten", "")
+    return w != r and bool(NEGZERO.search(w)) and NEGZERO.sub("0.0", w) == NEGZERO.sub("0.0", r)
+
+
+# numbers that are outside the Coq model (doubles, complex): python leaf ("num", <steel expr that BUILDS it>, [tags])
+DOUBLES = [("0.0", []), ("(- 0.0)", ["negzero"]), ("1.0", []), ("-3.0", []), ("(exact->inexact 12345678901234567890)", []),
+           ("0.1", []), ("1e21", []), ("1e-7", []), ("5e-324", []), ("1.7976931348623157e308", []), ("-1.5", []),
+           ("123456.789", []), ("(/ 1.0 3.0)", []), ("(sqrt 2.0)", []), ("1e22", []), ("(- 1e300)", []),
+           ("(/ 1.0 0.0)", ["inf"]), ("(/ -1.0 0.0)", ["inf"]), ("(/ 0.0 0.0)", ["nan"]), ("(- (/ 0.0 0.0))", ["nan"])]
+PARTS = {
+    "int": (["0", "1", "7", "12", "4611686018427387904", "(* 10000000000000 1000000000000)"], []),
+    "rat": (["(/ 1 2)", "(/ 3 4)", "(/ 100000000000000000001 3)"], []),
+    "dbl": (["1.5", "0.0", "0.1", "1e21", "5e-324", "2.0"], []),
+    "inf": (["(/ 1.0 0.0)"], ["inf"]),
+    "nan": (["(/ 0.0 0.0)"], ["nan"]),
+}
+
+
+def gen_part(rng, kind, neg):
+    exprs, tags = PARTS[kind]
+    e = rng.choice(exprs)
+    tags = list(tags)
+    if neg:
+        if e == "0.0":
+            tags.append("negzero")
+        e = "(- %s)" % e
+    return e, tags
+
+
+def complex_grid(rng):
+    """every combination of {exact integer, exact rational, double, inf, nan} x sign for the real and the imaginary part"""
+    out = []
+    for rk in PARTS:
+        for rn in (False, True):
+            for ik in PARTS:
+                for inn in (False, True):
+                    re_, t1 = gen_part(rng, rk, rn)
+                    im_, t2 = gen_part(rng, ik, inn)
+                    out.append(("num", "(make-rectangular %s %s)" % (re_, im_), sorted(set(t1 + t2 + ["complex"]))))
+    return out
+
+
+def gen_number_leaf(rng):
+    k = rng.random()
+    if k < 0.45:
+        e, t = rng.choice(DOUBLES)
+        return ("num", e, list(t))
+    if k < 0.9:
+        kinds = list(PARTS)
+        re_, t1 = gen_part(rng, rng.choice(kinds), rng.random() < 0.5)
+        im_, t2 = gen_part(rng, rng.choice(kinds), rng.random() < 0.5)
+        return ("num", "(make-rectangular %s %s)" % (re_, im_), sorted(set(t1 + t2 + ["complex"])))
+    return ("int", gen_int(rng))
+
+
+def gen_number_datum(rng, depth):
+    """numbers of every kind nested in lists / pairs / vectors / quote forms, next to unproblematic atoms only
+    (no symbol needing bars, no unquote head, shallow): nothing here can fall into another finding class"""
+    if depth <= 0 or rng.random() < 0.35:
+        if rng.random() < 0.8:
+            return gen_number_leaf(rng)
+        return rng.choice([("sym", [ord(c) for c in "x"]), ("str", [97, 32, 98]), ("bool", True), ("char", 955)])
+    k = rng.random()
+    n = rng.choice([1, 2, 2, 3])
+    if k < 0.45:
+        return ("list", [gen_number_datum(rng, depth - 1) for _ in range(n)])
+    if k < 0.6:
+        return ("list", [("sym", [ord(c) for c in rng.choice(["quote", "quasiquote"])]), gen_number_datum(rng, depth - 1)])
+    if k < 0.78:
+        d = gen_number_datum(rng, depth - 1)
+        while d[0] == "list":
+            d = gen_number_leaf(rng)
+        return ("pair", gen_number_datum(rng, depth - 1), d)
+    return ("vec", [gen_number_datum(rng, depth - 1) for _ in range(n)])
+
+
+def tie_numbers(ck, data, tag):
+    """(b2) oracle-only tie for the numbers outside the Coq model (doubles, +-inf.0, NaN, complex of every part kind):
+    build -> engine write -> engine read; required: equal? (for NaN: a number of the same exactness whose number->string
+    is the written text), `write` agrees with `number->string` on every number, and writing the datum read gives the
+    same text again"""
+    units = ["E:(c12-rtn %s)" % steel_build(d) for d in data]
+    impl = run_units(ck, units, prelude=PRELUDE, batch=60)
+    kinds = set()
+    for i, (d, r) in enumerate(zip(data, impl)):
+        ck.cov["evaluations"] += 1
+        tags = sorted(set(t for x in walk(d) if x[0] == "num" for t in x[2]))
+        case = {"kind": "number-roundtrip", "datum": d, "build": steel_build(d), "tags": tags}
+        kinds.add((tuple(tags), tuple(sorted(set(x[0] for x in walk(d))))))
+        if "ok" not in r or not r["ok"]:
+            case.update(mode="engine", impl=r)
+            ck.failing_input("write/read of %s: engine did not answer: %s" % (case["build"][:200], json.dumps(r)[:200]), case, tag=tag)
+            continue
+        fields = [_harness_unesc(m) for m in _STR.findall(r["ok"][-1])]
+        if len(fields) < 4:
+            case.update(mode="engine", impl=r)
+            ck.failing_input("write/read of %s: unexpected answer %s" % (case["build"][:200], r["ok"][-1][:200]), case, tag=tag)
+            continue
+        text, eq, same, rewritten, mism = fields[0], fields[1] == "T", fields[2] == "T", fields[3], fields[4:]
+        case.update(written=text, rewritten=rewritten, equal=eq, same=same)
+        if i % 41 == 0:
+            ck.sample({"build": case["build"][:160], "written": text[:120], "equal": eq, "same_kind": same}, cap=10)
+        if not same or (not eq and "nan" not in tags):
+            case["mode"] = "roundtrip"
+            ck.failing_input("the written number does not read back: %s is written %r and read back as %r (equal? %s)" %
+                             (case["build"][:160], text[:100], rewritten[:100], eq), case, tag=tag)
+        elif mism:
+            case.update(mode="formatters", mismatches=mism)
+            ck.failing_input("`write` and number->string disagree on %s: %s" % (case["build"][:160], "; ".join(mism)[:200]), case, tag=tag)
+        elif rewritten != text:
+            case["mode"] = "rewrite"
+            ck.failing_input("writing what was read differs from what was written: %s is written %r, read and written again %r" %
+                             (case["build"][:160], text[:100], rewritten[:100]), case, tag=tag)
+    return kinds
+
+
+def corpus_numbers():
+    try:
+        return json.load(open(os.path.join(CORPUS_DIR, "regressions.json"))).get("numbers", [])
+    except (OSError, ValueError):
+        return []
+
+
 # ------------------------------------------------------------------------------------------------ running the harness
 def run_units(ck, units, prelude="", batch=200, timeout=120):
     """one unit per case on the c12 harness; returns the per-unit result objects (crash/hang are observables)"""
@@ -398,6 +529,42 @@ PRELUDE = """(define (c12-write d) (let ([p (open-output-string)]) (write d p) (
         (if (or (eof-object? v) (> n 40))
             (reverse acc)
             (loop (+ n 1) (cons v acc)))))))
+;;;;
+(define (c12-substr? pat s)
+  (let ([n (string-length pat)] [m (string-length s)])
+    (let loop ([i 0])
+      (cond [(> (+ i n) m) #f]
+            [(string=? (substring s i (+ i n)) pat) #t]
+            [else (loop (+ i 1))]))))
+;;;;
+(define (c12-num-same? a b)
+  (and (number? b)
+       (or (equal? a b)
+           (and (c12-substr? "nan" (number->string a))
+                (equal? (exact? a) (exact? b))
+                (string=? (number->string a) (number->string b))))))
+;;;;
+(define (c12-same? a b)
+  (cond [(number? a) (c12-num-same? a b)]
+        [(pair? a) (and (pair? b) (c12-same? (car a) (car b)) (c12-same? (cdr a) (cdr b)))]
+        [(vector? a) (and (vector? b) (c12-same? (vector->list a) (vector->list b)))]
+        [else (equal? a b)]))
+;;;;
+(define (c12-numbers d)
+  (cond [(number? d) (list d)]
+        [(pair? d) (append (c12-numbers (car d)) (c12-numbers (cdr d)))]
+        [(vector? d) (c12-numbers (vector->list d))]
+        [else '()]))
+;;;;
+(define (c12-rtn d)
+  (let* ([text (c12-write d)]
+         [back (with-handler (lambda (e) 'c12-read-raised) (read (open-input-string text)))]
+         [bad (filter (lambda (x) (not (string=? (c12-write x) (number->string x)))) (c12-numbers d))])
+    (append (list text
+                  (if (equal? d back) "T" "F")
+                  (if (c12-same? d back) "T" "F")
+                  (if (eq? back 'c12-read-raised) "<raised>" (c12-write back)))
+            (map (lambda (x) (string-append (c12-write x) " vs " (number->string x))) bad))))
 """
 
 
@@ -900,7 +1067,10 @@ def run(ck):
     ]
     ck.assumptions = [
         "floating point, complex and polar literals: recognised by the model (acceptance grammar) but without value; "
-        "doubles are checked differentially only (write -> read -> equal?)",
+        "inexact and complex numbers are OUTSIDE the Coq model: tie (b2) checks them on the implementation only "
+        "(build -> write -> read -> equal?; NaN: same kind + number->string = written text; write vs number->string; "
+        "write(read(write d)) = write d) over doubles incl. +-0.0, +-inf.0, NaN and complex numbers with every "
+        "{integer, rational, double, inf, nan} x sign combination of real and imaginary part, nested in lists/pairs/vectors/quote forms",
         "`;;@doc` comments and hash maps / structs / cyclic or shared mutable data are outside the model",
         "the expression parser beyond data (lowering of define/lambda/let/if..) is covered differentially only (no panic, spans, print_parse_ast)",
     ]
@@ -925,6 +1095,12 @@ def run(ck):
             d = ("list", [d])
         data.append(d)
     kinds = tie_roundtrip(ck, data, "data")
+    # ---- (b2) numbers outside the Coq model: doubles, infinities, NaN, complex (oracle on the implementation only)
+    numdata = [tuple_datum(d) for d in corpus_numbers()]
+    numdata += [("num", e, list(t)) for e, t in DOUBLES] + complex_grid(rng)
+    numdata += [gen_number_datum(rng, rng.choice([1, 2, 3])) for _ in range(250 if quick else 5000)]
+    kinds |= tie_numbers(ck, numdata, "num")
+    ck.cov["inexact_and_complex_data"] = len(numdata)
     # ---- (c) print -> parse
     progs = list(dict.fromkeys(PROGRAMS + [gen_program(rng) for _ in range(600 if quick else 10000)]))
     n_pp = tie_print_parse(ck, progs, "pp")
@@ -948,7 +1124,11 @@ def replay(ck, path):
     obj = json.load(open(path))
     case = obj.get("case") or obj
     ck.harness_build(["c12"])
-    if case.get("kind") == "roundtrip":
+    if case.get("kind") == "number-roundtrip":
+        d = tuple_datum(case["datum"])
+        tie_numbers(ck, [d], "num")
+        print("build:", steel_build(d)[:300])
+    elif case.get("kind") == "roundtrip":
         d = tuple_datum(case["datum"])
         tie_roundtrip(ck, [d], "data")
         print("build:", steel_build(d)[:300])
